@@ -6,7 +6,7 @@ class LogEmbeddedErrorEstimate(Hooks):
     Store the embedded error estimate at the end of each step as "error_embedded_estimate".
     """
 
-    def log_error(self, step, level_number, appendix=''):
+    def log_error(self, step, level_number, appendix='', iter_of_estimate=None):
         L = step.levels[level_number]
 
         for flavour in ['', '_collocation']:
@@ -14,7 +14,7 @@ class LogEmbeddedErrorEstimate(Hooks):
                 if flavour == '_collocation':
                     iter, value = L.status.error_embedded_estimate_collocation
                 else:
-                    iter = step.status.iter
+                    iter = step.status.iter if iter_of_estimate is None else iter_of_estimate
                     value = L.status.error_embedded_estimate
                 self.add_to_stats(
                     process=step.status.slot,
@@ -62,7 +62,9 @@ class LogEmbeddedErrorEstimatePostIter(LogEmbeddedErrorEstimate):
             None
         """
         super().post_iteration(step, level_number)
-        self.log_error(step, level_number, '_post_iteration')
+        # the estimate available here was computed after the hooks of the previous iteration were called: key it with that
+        # iteration, otherwise the record written after the step (final iteration) silently overwrites it
+        self.log_error(step, level_number, '_post_iteration', iter_of_estimate=step.status.iter - 1)
 
     def post_step(self, step, level_number):
         super().post_step(step, level_number, appendix='_post_iteration')
